@@ -204,9 +204,19 @@ def check_site(ast, text, types, site, st, tname):
                 solver.add(*inv, *p.pc, *small, z3.Not(ub.any()), z3.Not(goal))
                 r2, mdl = symx.robust_check(solver, retry_timeout_ms=60000); d['queries'] += 1
                 solver.pop()
+                if r2 == z3.unknown:
+                    # second fallback: 8 significant bits per operand (stated bound)
+                    solver.push()
+                    tiny = [z3.And(v.v <= 0x7f, v.v >= -0x80) if v.t.s else z3.ULE(v.v, 0xff) for v in data.vals.values() if v is not None and v.t.w > 8]
+                    solver.add(*inv, *p.pc, *tiny, z3.Not(ub.any()), z3.Not(goal))
+                    r2, mdl = symx.robust_check(solver, retry_timeout_ms=60000); d['queries'] += 1
+                    solver.pop()
+                    if r2 == z3.unsat:
+                        d['cov'].setdefault('decided_at_reduced_width_8', []).append(key)
+                elif r2 == z3.unsat:
+                    d['cov'].setdefault('decided_at_reduced_width_16', []).append(key)
                 if r2 == z3.unsat:
                     d['discharged'] += 1
-                    d['cov'].setdefault('decided_at_reduced_width_16', []).append(key)
                     r = z3.unsat
                 elif r2 == z3.unknown:
                     d['inconclusive'].append('C14 ' + key)
